@@ -35,6 +35,9 @@ var coveredBy = map[string]string{
 	"z:Tree.newNode": "TieTree", "z:Tree.split": "TieTree", "z:Tree.get": "TieTree", "z:Tree.Get": "TieTree",
 	"z:Allocator.Allocate": "TieAlloc", "z:Allocator.addBufferAt": "TieAlloc", "z:Allocator.TrimTo": "TieAlloc",
 	"z:Allocator.AllocateAligned": "TieAlloc", "z:NewAllocator": "TieAlloc", "z:Allocator.Size": "TieAlloc", "z:Allocator.Reset": "TieAlloc",
+	"z:Tree.set": "TieTree2", "z:Tree.Set": "TieTree2", "z:Tree.compact": "TieTree2", "z:Tree.DeleteBelow": "TieTree2",
+	"z:Tree.IterateKV": "TieTree2", "z:Tree.iterate": "TieTree2", "z:Tree.Reset": "TieTree2", "z:Tree.reinit": "TieTree2", "z:Tree.initRootNode": "TieTree2",
+	":sampledLFU.clear": "TiePolicy", ":sampledLFU.getMaxCost": "TiePolicy", ":defaultPolicy.Has": "TiePolicy", ":defaultPolicy.Del": "TiePolicy", ":defaultPolicy.Update": "TiePolicy",
 	"z:node.bits": "TieNode", "z:node.compact": "TieNode", "z:node.get": "TieNode", "z:node.isFull": "TieNode",
 	"z:node.isLeaf": "TieNode", "z:node.maxKey": "TieNode", "z:node.moveRight": "TieNode", "z:node.numKeys": "TieNode",
 	"z:node.search": "TieNode", "z:node.set": "TieNode", "z:node.setBit": "TieNode", "z:node.setNumKeys": "TieNode",
@@ -90,7 +93,7 @@ var staleOK = map[string]bool{"Methods": true, "Node": true, "BufferM": true, "T
 
 var tieModule = map[string][]string{
 	"TieStore": {"Methods"}, "TieExpiry": {"Methods"}, "TiePolicy": {"Methods"}, "TieNode": {"Node"},
-	"TieBuffer": {"BufferM"}, "TieBufferSort": {"BufferM"}, "TieTree": {"TreeM", "Node"}, "TieAlloc": {"AllocM"},
+	"TieBuffer": {"BufferM"}, "TieBufferSort": {"BufferM"}, "TieTree": {"TreeM", "Node"}, "TieTree2": {"TreeM", "Node"}, "TieAlloc": {"AllocM"},
 	"TieSketch": {"SketchM"}, "TieTinyLFU": {"TinyLFUM", "SketchM"}, "TiePolicyAdd": {"PolicyM", "TinyLFUM", "SketchM"},
 }
 
